@@ -1,5 +1,6 @@
 \* C17 liveness: stop() terminates and the writer leaves after close(), under weak fairness of the writer (and of the
-\* recorder's own pending steps).  Holds for both writer orders (34 089 / 45 799 distinct states).
+\* recorder's own pending steps).  Holds with ONE recording for all three handshakes (clear_then_set 64 937, set_then_clear 42 507,
+\* handoff 25 802 distinct states); with MaxRec = 2 set_then_clear violates StopTerminates (MaxMsgs 1, MaxNone 1, MaxPause 0 suffices).
 SPECIFICATION FairSpec
 CONSTANTS
   DS = {"d1", "d2"}
@@ -8,6 +9,8 @@ CONSTANTS
   MaxNone = 1
   MaxTicks = 2
   MaxPause = 1
+  MaxRec = 1
+  EaccReset = FALSE
   Dts = {16}
   WriterOrder = "clear_then_set"
   I1 = 30
